@@ -29,6 +29,7 @@ class CodeGenerator:
         self.context = None
         self.debug_db = debuginfo.DebugDb()
         self.module_ok = False
+        self.error_count = 0
 
     def gen(self, context):
         """Generate code for a whole context"""
@@ -178,6 +179,7 @@ class CodeGenerator:
     def error(self, msg, loc=None):
         """Emit error to diagnostic system and mark package as invalid"""
         self.module_ok = False
+        self.error_count += 1
         self.diag.error(msg, loc)
 
     def gen_external_function(self, function):
@@ -248,7 +250,9 @@ class CodeGenerator:
             dfi.add_variable(dv)
 
         # Generate code for body:
+        error_count = self.error_count
         self.gen_stmt(function.body)
+        body_ok = self.error_count == error_count
 
         # Close block:
         if not self.builder.block.is_closed:
@@ -257,11 +261,14 @@ class CodeGenerator:
                 self.emit(ir.Exit())
             else:
                 if self.builder.block.is_empty:
+                    # This block is fine when it cannot be reached:
                     last_block = self.builder.block
                     self.builder.set_block(None)
                     ir_function.delete_unreachable()
-                    assert not last_block.is_used
-                    assert last_block not in ir_function
+                    if last_block in ir_function and body_ok:
+                        raise SemanticError(
+                            "Function does not return a value", function.loc
+                        )
                 else:
                     raise SemanticError(
                         "Function does not return a value", function.loc
